@@ -85,7 +85,7 @@ Ltac frame f := pres_gen (same f) (same_refl f) (same_trans f); try reflexivity.
 (* the stepping tactic for outcome characterisations *)
 Ltac atom_scrut b := lazymatch b with context [match _ with _ => _ end] => fail | _ => idtac end.
 Ltac crunch1 := match goal with |- context [match ?b with _ => _ end] => atom_scrut b; destruct b eqn:? end.
-Ltac red_m := cbn beta iota zeta delta [fst snd andb orb negb h_st h_lg h_plan h_ev h_dc c_st c_lg start].
+Ltac red_m := cbn beta iota zeta delta [fst snd andb orb negb h_st h_lg h_plan h_ev h_dc c_st c_lg start r_out r_chain r_events r_calls r_dirty].
 Ltac unfold_m := unfold guard, require_modelled, lift_opt, role, bind, ret, fail, panic, unmodelled, get_st, mod_st, emit.
 Ltac crunch := unfold_m; red_m; repeat (crunch1; red_m); try reflexivity; try congruence.
 
@@ -104,7 +104,7 @@ Proof. unfold deliver. destruct (handler e t (start c plan)) as [[a'| | |] h]; c
   injection H as ->. eauto. Qed.
 
 (* the same stepping, inside a hypothesis [H : m h = (ROk a, h')] (inversion of a successful run) *)
-Ltac red_in H := cbn beta iota zeta delta [fst snd andb orb negb h_st h_lg h_plan h_ev h_dc c_st c_lg start] in H.
+Ltac red_in H := cbn beta iota zeta delta [fst snd andb orb negb h_st h_lg h_plan h_ev h_dc c_st c_lg start r_out r_chain r_events r_calls r_dirty] in H.
 Ltac unfold_m_in H :=
   unfold guard, require_modelled, lift_opt, role, bind, ret, fail, panic, unmodelled, get_st, mod_st, emit in H.
 Ltac step_in H :=
